@@ -351,13 +351,14 @@ def secured_job(args):
     for (lat, lon) in args:
         for kind in ("shb", "gbc", "gac", "guc"):
             for pname, (prof, psid) in profs.items():
-                for payload in (b"", b"s", bytes(range(200))):
+                # the sender inside the destination area (area forwarding) and outside it (greedy forwarding towards it)
+                for payload, dlat in ((b"", 0.0003), (b"s", 0.0003), (bytes(range(200)), 0.0003), (b"out", 0.003)):
                     n += 1
                     rec = dict(security="on", transport=kind, profile=pname, length=len(payload), hemisphere=("S" if lat < 0 else "N") + ("W" if lon < 0 else "E"))
                     try:
                         net = SEC.SecNet()
                         a = net.add_secured("A", MID["A"], SEC.make_stack(own="AT1", known_ats=("AT2",), p=pk), lat=lat, lon=lon, itsGnDefaultHopLimit=3)
-                        b = net.add_secured("B", MID["B"], SEC.make_stack(own="AT2", known_ats=("AT1",), p=pk), lat=lat + 0.0003, lon=lon, itsGnDefaultHopLimit=3)
+                        b = net.add_secured("B", MID["B"], SEC.make_stack(own="AT2", known_ats=("AT1",), p=pk), lat=lat + dlat, lon=lon, itsGnDefaultHopLimit=3)
                         net.connect_all()
                         net.call(b.gn.gn_data_request_beacon)
                         net.quiesce()
